@@ -37,6 +37,9 @@ type c12Case struct {
 	// Text: 0 = the document is pure ASCII; 1 / 2 = it carries two-byte / four-byte UTF-8
 	// characters (sizes and limits count bytes, not characters)
 	Text int `json:"non_ascii,omitempty"`
+	// PreDecoded: the very same input is first given to the unverified decoder of its kind (as a
+	// multi-IdP deployment does to pick the configuration), then to the entry point
+	PreDecoded bool `json:"pre_decoded_first,omitempty"`
 }
 
 var c12Texts = []string{"", "<!--Universit\u00e4t \u00e9\u00e9\u00e9-->", "<!--\U0001F600\U0001F600\U0001F600 \u65e5\u672c-->"}
@@ -228,6 +231,12 @@ func c12Exec(c c12Case, measure bool) (keys []string, detail, class string) {
 	if measure {
 		runtime.GC()
 		runtime.ReadMemStats(&m0)
+	}
+	if c.PreDecoded {
+		guard(func() {
+			saml2.DecodeUnverifiedBaseResponse(comp)
+			saml2.DecodeUnverifiedLogoutResponse(comp)
+		})
 	}
 	o := c12Call(c.Entry, c.Limit, comp)
 	if measure {
@@ -487,7 +496,7 @@ func c12Run(r *mc.Run) {
 	if r.Thorough() {
 		bomb = 2 << 30
 	}
-	r.Rule = "configured limit(6: unset, 1, 64, 2048, 65536, 5 MiB) x inflated size around the effective limit (L-1, L, L+1, 2L, 64L) x flate level(5: stored, 1, 6, 9, Huffman-only) x 6 entry points (the unverified decoders always at 5 MiB), documents = a genuine signed message (or the smallest well-formed document) padded with whitespace to the exact size, also with a trailing comment of two-byte / four-byte UTF-8 characters (limits count bytes) for 4 limits x sizes L-1..L+2, 2L x 2 levels; plus a streamed expansion bomb (256 MiB quick / 2 GiB thorough, ~1000:1) per limit x entry point x level with TotalAlloc measured around the call (sequential phase). Oracle: size > limit => error, and the same outcome (acceptance, error type and text) when everything after limit+1 bytes of the expansion is replaced by garbage (no wording is assumed); size <= limit => identical outcome, data and error to the same bytes presented uncompressed; the same for a DEFLATE-compressed plaintext inside an EncryptedAssertion (3 limits x 4 sizes x 2 levels); plus hand-framed stored-block streams whose first bytes read as whitespace followed by '<' (padding bits of the block header, a 60-byte block length) against the raw presentation; plus sequences per entry point x level x 4 unfinished streams: a DEFLATE stream that yields output and then ends without a final block, followed by an ordinary compressed message, whose outcome must equal the outcome of that message alone taken at process start. non-trivial = the input reached the inflater (raw parse failed); distinct = distinct case"
+	r.Rule = "configured limit(6: unset, 1, 64, 2048, 65536, 5 MiB) x inflated size around the effective limit (L-1, L, L+1, 2L, 64L) x flate level(5: stored, 1, 6, 9, Huffman-only) x 6 entry points (the unverified decoders always at 5 MiB), documents = a genuine signed message (or the smallest well-formed document) padded with whitespace to the exact size, also with a trailing comment of two-byte / four-byte UTF-8 characters (limits count bytes) for 4 limits x sizes L-1..L+2, 2L x 2 levels; the same input given to the unverified decoders first, 3 limits x 4 entry points x 5 sizes x 2 levels; plus a streamed expansion bomb (256 MiB quick / 2 GiB thorough, ~1000:1) per limit x entry point x level with TotalAlloc measured around the call (sequential phase). Oracle: size > limit => error, and the same outcome (acceptance, error type and text) when everything after limit+1 bytes of the expansion is replaced by garbage (no wording is assumed); size <= limit => identical outcome, data and error to the same bytes presented uncompressed; the same for a DEFLATE-compressed plaintext inside an EncryptedAssertion (3 limits x 4 sizes x 2 levels); plus hand-framed stored-block streams whose first bytes read as whitespace followed by '<' (padding bits of the block header, a 60-byte block length) against the raw presentation; plus sequences per entry point x level x 4 unfinished streams: a DEFLATE stream that yields output and then ends without a final block, followed by an ordinary compressed message, whose outcome must equal the outcome of that message alone taken at process start. non-trivial = the input reached the inflater (raw parse failed); distinct = distinct case"
 	r.Assume("runtime.MemStats.TotalAlloc deltas measured in a sequential phase with no other goroutine allocating")
 	// sequences: the references first, while the process has decoded nothing else
 	var seqs []c12Seq
@@ -568,6 +577,19 @@ func c12Run(r *mc.Run) {
 		}
 	}
 	r.Set("non_ascii_cases", nText)
+	// the pre-decoders (always at 5 MiB) are consulted first with the very same input
+	nPre := 0
+	for _, L := range []int64{64, 2048, 65536} {
+		for e := 0; e < 4; e++ {
+			for _, sz := range []int64{L - 1, L, L + 1, 2 * L, 64 * L} {
+				for _, li := range []int{1, 2} {
+					cases = append(cases, c12Case{Limit: L, Size: sz, Level: li, Entry: e, PreDecoded: true})
+					nPre++
+				}
+			}
+		}
+	}
+	r.Set("pre_decoded_first_cases", nPre)
 	r.Set("cases", len(cases))
 	r.State(len(cases))
 	// big documents are memory-hungry: limit parallelism by running the large ones sequentially
